@@ -213,6 +213,14 @@ Proof.
   destruct Hr as [Hr|[k Hr]]; rewrite Hr; cbn; repeat split.
 Qed.
 
+Lemma cut_reply secret e id :
+  e_pre e = PConnected id -> e_write_ok e = true -> e_reply e = RCut ->
+  let r := component_connect secret e in
+  r_err r = ErrConn false /\ r_state r = PermanentErrorState /\ r_recv r = false.
+Proof.
+  intros Hp Hw Hr. cbv zeta. unfold component_connect. rewrite Hp, Hw, Hr. cbn. repeat split.
+Qed.
+
 Lemma write_failure secret e id :
   e_pre e = PConnected id -> e_write_ok e = false ->
   let r := component_connect secret e in
@@ -221,14 +229,36 @@ Proof.
   intros Hp Hw. cbv zeta. unfold component_connect. rewrite Hp, Hw. cbn. repeat split.
 Qed.
 
-Lemma transport_failure secret e :
-  (forall id, e_pre e <> PConnected id) ->
+Lemma bad_transport secret e :
+  e_pre e = PBadTransport ->
   let r := component_connect secret e in
   r_err r = ErrConn true /\ r_state r = PermanentErrorState /\ r_recv r = false.
+Proof. intros Hp. cbv zeta. unfold component_connect. rewrite Hp. cbn. repeat split. Qed.
+
+(* dial refused or timed out, connection cut or unreadable during the stream header: the
+   transport's own, non-permanent, error *)
+Lemma connect_failed secret e :
+  e_pre e = PConnectFail ->
+  let r := component_connect secret e in
+  r_err r = ErrConn false /\ r_state r = PermanentErrorState /\ r_recv r = false.
+Proof. intros Hp. cbv zeta. unfold component_connect. rewrite Hp. cbn. repeat split. Qed.
+
+(* a connection is left open for Send exactly when the attempt succeeded *)
+Lemma open_iff_success secret e : r_open (component_connect secret e) = true <-> success e = true.
 Proof.
-  intros Hp. cbv zeta. unfold component_connect.
-  destruct (e_pre e) as [| |id]; cbn; try (repeat split; fail).
-  exfalso. exact (Hp id eq_refl).
+  unfold success, component_connect. destruct (e_pre e) as [| |id]; cbn; try (split; discriminate).
+  destruct (e_write_ok e); cbn [negb andb]; [|cbn; split; discriminate].
+  destruct (e_reply e); cbn; split; intros H; try discriminate; reflexivity.
+Qed.
+
+(* after the end of the session, or of the attempt, the state is never Established *)
+Lemma state_after_end_not_established secret e :
+  state_after_end (component_connect secret e) <> Established.
+Proof.
+  unfold state_after_end. destruct (r_recv (component_connect secret e)) eqn:Hr; [discriminate|].
+  destruct (success e) eqn:Hs.
+  - destruct (connect_success secret e Hs) as (_ & _ & H). congruence.
+  - destruct (connect_failure secret e Hs) as (_ & H & _). exact H.
 Qed.
 
 (* the StreamError text of the one event: "conflict" exactly on the stream-error branch
